@@ -211,7 +211,7 @@ func prehashMsiDirent(item *comdoc.DirEnt, d io.Writer) {
 	_ = binary.Write(buf, binary.LittleEndian, item.RawDirEnt)
 	enc := buf.Bytes()
 	// Name
-	if item.Type != comdoc.DirRoot {
+	if item.Type != comdoc.DirRoot && item.NameLength >= 2 && item.NameLength <= 64 {
 		_, _ = d.Write(enc[:item.NameLength-2])
 	}
 	// UID
@@ -239,7 +239,7 @@ func sortMsiFiles(files []*comdoc.DirEnt) {
 			n = b.NameLength
 		}
 		// do a comparison of the utf16 in its original LE form
-		for k := uint16(0); k < n; k++ {
+		for k := uint16(0); k < n && int(k) < len(a.NameRunes); k++ {
 			x, y := a.NameRunes[k], b.NameRunes[k]
 			x1, y1 := x&0xff, y&0xff
 			if x1 != y1 {
